@@ -226,7 +226,7 @@ class Run:
         h.at(0.0, setup)
         h.loop.idle_hooks.append(self.on_idle)
         for t, rank, a in self.script:
-            h.at(t, self.do, a, rank=rank)
+            h.at(t, self.do, a, rank=rank, hops=a.get("hops", 0))
         h.run(horizon)
         problems = h.problems()
         # acknowledgement polarity per subscriber, in wire order
@@ -266,6 +266,7 @@ class Builder:
         self.running = {n: True for n in INSTANCES}
         self.lost = False
         self.last_rank = BEFORE
+        self.last_hops = 0
         self.policy = set(REJECTED)
 
     def pending(self):
@@ -278,12 +279,15 @@ class Builder:
             while any(d != math.inf and abs(d - t) < 4 * EPS for d in self.deadlines.values()):
                 t += 2.0 ** -5
             return t, BEFORE
-        if placement == "same":
-            return (self.now, self.last_rank) if self.script else None
+        if placement in ("same", "same+1", "same+2"):
+            if not self.script or self.last_hops:
+                return None  # nothing more in the instant of a hopped action: script order stays execution order
+            return self.now, self.last_rank
         d = self.pending()
         if d is None:
             return None
-        return {"d-eps": (d - EPS, BEFORE), "d:before": (d, BEFORE), "d:after": (d, AFTER), "d+eps": (d + EPS, BEFORE)}[placement]
+        return {"d-eps": (d - EPS, BEFORE), "d:before": (d, BEFORE), "d:after": (d, AFTER), "d+eps": (d + EPS, BEFORE),
+                "d:after+1": (d, AFTER)}[placement]
 
     def add(self, action, placement):
         a = dict(action)
@@ -344,9 +348,12 @@ class Builder:
             self.deadlines.clear()
             for n in self.running:
                 self.running[n] = False
+        hops = int(placement.split("+")[1]) if "+" in placement and placement != "d+eps" else 0
+        a["hops"] = hops
         self.script.append((t, rank, a))
         self.now = t
         self.last_rank = rank
+        self.last_hops = hops
         return True
 
     def horizon(self):
@@ -376,7 +383,7 @@ ALPHABET = {
     "accept-I1": dict(kind="policy", tag=I1, reject=False),
 }
 LETTERS = list(ALPHABET)
-PLACEMENTS = ("new", "same", "d-eps", "d:before", "d:after", "d+eps")
+PLACEMENTS = ("new", "same", "same+1", "d-eps", "d:before", "d:after", "d+eps")
 
 
 def replay_builder(seq):
@@ -433,7 +440,7 @@ def random_history(rng):
             a = dict(kind="policy", tag=tg, reject=tg not in b.policy)
         else:
             a = dict(kind="msg", sub=rng.choice("AB"), mc=False, entries=[(rng.choice(hot), rng.choice((1, 2)))])
-        pl = rng.choice(("new", "new", "same", "same", "d-eps", "d:before", "d:after", "d+eps"))
+        pl = rng.choice(("new", "new", "same", "same", "same+1", "same+2", "d-eps", "d:before", "d:after", "d:after+1", "d+eps"))
         if b.add(a, pl):
             seq.append((a["kind"], pl))
     return b, tuple(seq)
@@ -466,6 +473,8 @@ def count_placements(ctx, seq):
     for _l, pl in seq:
         if pl == "same":
             ctx.count("same_iteration_placements")
+        elif "+" in pl and pl != "d+eps":
+            ctx.count("later_iteration_same_instant_placements")
         elif pl == "d:before":
             ctx.count("deadline_before_placements")
         elif pl == "d:after":
